@@ -236,6 +236,10 @@ def judge(plan, O, out, forced, stopped_at=None):
         f = failed[0]
         group, k, occ, first_seq = f[0], f[1], f[2], f[6]
         ctx = "first" if occ == 1 else "inner"
+        if name == "Newton" and not plan.get("verbose", True):
+            # without progress output the static solver does not pass the step seam (tqdm); it calls fsolve exactly
+            # once per load step, so the j-th call is iteration j of the load-step loop
+            k, ctx = occ, "first"
     else:
         group, k, occ, first_seq, ctx = "backend", None, 1, 0, "stop"
     sig = f"{name}/{group}/{ctx}"
